@@ -11,7 +11,7 @@ import (
 // demand; every oracle compares against this, never against what the cache
 // returned earlier.
 type BlobID struct {
-	Kind int   `json:"k"` // 0 random (incompressible), 1 zeros, 2 text (compressible)
+	Kind int   `json:"k"` // 0 random (incompressible), 1 zeros, 2 text (compressible), 3 periodic family (see Make)
 	Seed int   `json:"s"`
 	Size int64 `json:"n"`
 }
@@ -52,6 +52,21 @@ func Make(id BlobID) *Blob {
 		// zeros, but make distinct seeds distinct blobs: a short tag at the start
 		tag := fmt.Sprintf("%d", id.Seed)
 		copy(data, tag)
+	case 3:
+		// Periodic with period 4096 (divides the 1 MiB chunk size), and all
+		// kind-3 blobs agree except in the first 16 bytes of each period: a
+		// truncated or torn kind-3 blob is completed correctly by stale bytes
+		// of its own previous chunk or of a sibling handled just before, so
+		// that code which reuses buffers without clearing them is exposed.
+		var unit [4096]byte
+		for i := range unit {
+			unit[i] = "0123456789abcdefghijklmnopqrstuvwxyz\n"[(i*7+i/37)%37]
+		}
+		h := sha256.Sum256([]byte(fmt.Sprintf("family-member-%d", id.Seed)))
+		copy(unit[:16], h[:])
+		for i := 0; i < len(data); {
+			i += copy(data[i:], unit[:])
+		}
 	default:
 		line := fmt.Sprintf("line %d of blob seed %d: the quick brown fox jumps over the lazy dog\n", 0, id.Seed)
 		for i := 0; i < len(data); {
